@@ -298,6 +298,40 @@ func execC05(sc c05Scenario) *vstat.Outcome {
 	r11 := get(uriC, specC, sc.AEs[3])
 	check("hit-after-others2", sc.AEs[3], r11, hdr)
 
+	// conditional requests: pike answers 304 itself only where the documented rule allows it (GET/HEAD,
+	// a 2xx answer with a validator the request matches); everything else is delivered as is
+	hasValidator := false
+	for _, kv := range hdr {
+		if kv[0] == "Etag" || kv[0] == "Last-Modified" {
+			hasValidator = true
+		}
+	}
+	for i, cond := range [][2]string{{"If-None-Match", `"v1"`}, {"If-Modified-Since", "Thu, 01 Jan 2015 00:00:00 GMT"}} {
+		for j, target := range []struct {
+			uri, spec string
+			want      [][2]string
+		}{{uriC, specC, hdr}, {uriU, specU, hdrU}} {
+			ae := sc.AEs[(i+j)%len(sc.AEs)]
+			h := http.Header{"X-Spec": []string{target.spec}, cond[0]: []string{cond[1]}}
+			if ae != "-" {
+				h.Set("Accept-Encoding", ae)
+			}
+			r := do(c05Cl, reqSpec{Method: "GET", Addr: addr, Host: "c05.test", URI: target.uri, Header: h})
+			what := fmt.Sprintf("conditional request (%s) for %s", cond[0], target.uri)
+			if r.Err == "" && r.Code == 304 {
+				labels["304"]++
+				if sc.Status < 200 || sc.Status >= 300 || !hasValidator {
+					out.Violate("C05", "status", "%s: answered 304 Not Modified, but the upstream's answer has status %d, %d body bytes and validators=%v: the status code is not preserved", what, sc.Status, len(body), hasValidator)
+				}
+				if len(r.Raw) != 0 {
+					out.Violate("C05", "body", "%s: a 304 answer carries %d body bytes", what, len(r.Raw))
+				}
+				continue
+			}
+			check(what, ae, r, target.want)
+		}
+	}
+
 	thr := map[string]int{"": 1024, "1": 1, "100": 100, "1kb": 1024, "1mb": 1 << 20}[sc.MinLength]
 	nonGzipClient := false
 	for _, ae := range sc.AEs {
